@@ -151,25 +151,25 @@ fn check_incremental<const R: usize, const A: usize, const N: usize>(a_cut: usiz
 #[kani::stub(Poly1305::block, rec_block)]
 #[kani::unwind(70)]
 fn aead_oneshot_a0_n0() { check_oneshot::<8, 0, 0>() }
-// @harness props=C06,C07 kind=bounded bound=key,nonce_fixed,rounds=8,aad=5,len=16 tier=thorough timeout=1200 pairs=finalize_raw,pad16,encrypt,decrypt,new,finalize
+// @attempt (not run: duplicate of aead_oneshot_r2_a5_n16) props=C06,C07 kind=bounded bound=key,nonce_fixed,rounds=8,aad=5,len=16 tier=thorough timeout=1200 pairs=finalize_raw,pad16,encrypt,decrypt,new,finalize
 #[kani::proof]
 #[kani::stub(core::arch::x86_64::_mm_add_epi32, mm_add_epi32_def)]
 #[kani::stub(Poly1305::block, rec_block)]
 #[kani::unwind(70)]
 fn aead_oneshot_a5_n16() { check_oneshot::<8, 5, 16>() }
-// @harness props=C06,C07 kind=bounded bound=key,nonce_fixed,rounds=8,aad=16,len=17 tier=thorough timeout=1200 pairs=finalize_raw,pad16,encrypt,decrypt,new,finalize
+// @attempt (not run: together with the other AEAD harnesses kani-driver exceeds 56 GB and is OOM-killed) props=C06,C07 kind=bounded bound=key,nonce_fixed,rounds=8,aad=16,len=17 tier=thorough timeout=1200 pairs=finalize_raw,pad16,encrypt,decrypt,new,finalize
 #[kani::proof]
 #[kani::stub(core::arch::x86_64::_mm_add_epi32, mm_add_epi32_def)]
 #[kani::stub(Poly1305::block, rec_block)]
 #[kani::unwind(70)]
 fn aead_oneshot_a16_n17() { check_oneshot::<8, 16, 17>() }
-// @harness props=C06,C07 kind=bounded bound=key,nonce_fixed,rounds=8,aad=13(cut5),len=33(cut16) tier=thorough timeout=1200 pairs=to_encryption,to_decryption,add_data,add_encrypted,encrypt_mut,decrypt_mut,finalize_raw
+// @attempt (not run: unwinding bound too small, and memory as above) props=C06,C07 kind=bounded bound=key,nonce_fixed,rounds=8,aad=13(cut5),len=33(cut16) tier=thorough timeout=1200 pairs=to_encryption,to_decryption,add_data,add_encrypted,encrypt_mut,decrypt_mut,finalize_raw
 #[kani::proof]
 #[kani::stub(core::arch::x86_64::_mm_add_epi32, mm_add_epi32_def)]
 #[kani::stub(Poly1305::block, rec_block)]
 #[kani::unwind(70)]
 fn aead_incremental_a13_n33() { check_incremental::<8, 13, 33>(5, 16) }
-// @harness props=C06,C07 kind=bounded bound=key,nonce_fixed,rounds=8,aad=3(cut0),len=15(cut7) tier=thorough timeout=1200 pairs=to_encryption,to_decryption,add_data,add_encrypted,encrypt_mut,decrypt_mut,finalize_raw
+// @attempt (not run: memory as above) props=C06,C07 kind=bounded bound=key,nonce_fixed,rounds=8,aad=3(cut0),len=15(cut7) tier=thorough timeout=1200 pairs=to_encryption,to_decryption,add_data,add_encrypted,encrypt_mut,decrypt_mut,finalize_raw
 #[kani::proof]
 #[kani::stub(core::arch::x86_64::_mm_add_epi32, mm_add_epi32_def)]
 #[kani::stub(Poly1305::block, rec_block)]
@@ -189,7 +189,7 @@ fn aead_oneshot_r2_a5_n16() { check_oneshot::<8, 5, 16>() }
 #[kani::stub(Poly1305::block, rec_block)]
 #[kani::unwind(70)]
 fn aead_incremental_r2_a16_n32() { check_incremental::<8, 16, 32>(3, 16) }
-// @harness props=C06,C07 kind=bounded bound=key,nonce_fixed,rounds=8,aad=1(cut0),len=17(cut1) tier=thorough timeout=900 pairs=to_encryption,to_decryption,add_data,add_encrypted,encrypt_mut,decrypt_mut,finalize_raw
+// @attempt (not run: memory as above) props=C06,C07 kind=bounded bound=key,nonce_fixed,rounds=8,aad=1(cut0),len=17(cut1) tier=thorough timeout=900 pairs=to_encryption,to_decryption,add_data,add_encrypted,encrypt_mut,decrypt_mut,finalize_raw
 #[kani::proof]
 #[kani::stub(core::arch::x86_64::_mm_add_epi32, mm_add_epi32_def)]
 #[kani::stub(Poly1305::block, rec_block)]
